@@ -91,7 +91,7 @@ def printer_slice(ctx, sl, hook="none", extra_consts=None, module="MCPrinter", c
     model-level invariants, and every case is replayed on the real printer (byte-exact + the property's predicates)"""
     consts = dict(Slice='"%s"' % sl, HookKind='"%s"' % hook)
     consts.update(extra_consts or {})
-    return ctx.tlc_replay(module, cfg, ["printer-replay", "-prop", ctx.prop, "-hook", hook], consts=consts)
+    return ctx.tlc_replay(module, cfg, ["printer-replay", "-prop", ctx.prop, "-hook", hook, "-slice", sl], consts=consts)
 
 
 def printer_control_f3(ctx):
